@@ -33,11 +33,13 @@ def transfer_blocks(c):
         options.append(("blksize", str(bs)))
     nblocks = 2 * len(content) // bs + 2
     tc = T.mk_case(content, c["chunks"], netascii=True, options=options, default_tmo=4096, kind=c.get("kind", ("noreg",)),
+                   max_bs=c.get("max_bs", 65464),
                    events=[(1 + i, 0, T.ack(i & 0xFFFF)) for i in range(nblocks + 1)])
     log = T.run_impl(tc)
     out = []
     tsize = False
     last = None
+    announced = [512]
     for e in log:
         if e[0] == 1 and e[2] == 0 and e[3][0] == 3:
             if e[3] != last:
@@ -46,11 +48,18 @@ def transfer_blocks(c):
         elif e[0] == 1 and e[3][0] == 6:
             if any(k.lower() == b"tsize" for k, _ in e[3][1]):
                 tsize = True
+            for k, v in e[3][1]:
+                if k.lower() == b"blksize" and v.isdigit():
+                    announced[0] = int(v)
+    # the client frames the blocks by the block size the OACK ANNOUNCED (512 without one): that is the size the
+    # model is asked about (for the unchanged code it is the size the case was built for)
+    c["_announced_bs"] = announced[0]
     return out, tsize
 
 
 class C08(Check):
     ident = "C08"
+    extra_bins = ("c01pkt",)
     technique = "Coq proof (streaming lemma over any chunking/block size) + differential correspondence"
     rule = ("case = (content over {CR,LF,a,b}, chunking of the source reads, block size); exhaustive over lengths "
             "<= L with every composition as chunking for bs in 1..3 (direct reader) and bs=8 (real transfer), plus "
@@ -85,6 +94,23 @@ class C08(Check):
             content = bytes(rng.choice([13, 10, rng.randrange(256)]) for _ in range(n))
             ch = [rng.randrange(1, 700) for _ in range(rng.randrange(0, 40))]
             yield {"content": content, "chunks": ch, "bs": rng.choice([512, 1428]), "via": "transfer"}
+        # the carry-over state (a CR that ended a read) across LONG reads without CR/LF: any size-gated shortcut in
+        # the reader must keep it; reads are cut exactly at the segment boundaries [..CR][plain x n][LF..]
+        for n in (1, 2, 63, 64, 65, 255, 256, 257, 511, 512, 513, 1000, 1428, 4096):
+            for bs in (512, 1428) if tier == "quick" else (8, 512, 1428, 4096):
+                for (head, tail) in ((b"ab\r", b"\ncd"), (b"\r", b"\n"), (b"x\r", b"y\n"), (b"ab\r", b"\r\ncd"), (b"\n\r", b"\n\n")):
+                    content = head + b"p" * n + tail
+                    chunks = [len(head), n, len(tail)]
+                    yield {"content": content, "chunks": chunks, "bs": bs, "via": "reader"}
+                    yield {"content": content, "chunks": [len(head), max(1, n // 2), n - max(1, n // 2) or 1, len(tail)], "bs": bs, "via": "reader"}
+                    if bs >= 512:
+                        yield {"content": content, "chunks": chunks, "bs": bs, "via": "transfer"}
+        # a server block-size limit below the request: the blocks have the size the OACK announces
+        for (max_bs, req) in ((1024, 1468), (512, 8192), (600, 600), (600, 601)):
+            n = 3 * min(max_bs, req) + 5
+            content = bytes(rng.choice([13, 10, 97, 98, 99]) for _ in range(n))
+            yield {"content": content, "chunks": [], "bs": min(max_bs, req), "via": "transfer",
+                   "options": [("blksize", str(req))], "max_bs": max_bs}
         # a transfer size must never be announced in netascii mode: every stream kind x option spellings
         for kind in (("bytesio", 0), ("bytesio", 3), ("file", 0), ("file", 2), ("pipe",), ("noreg",), ("sized",)):
             for name in ("tsize", "TSIZE", "tSize"):
@@ -98,6 +124,11 @@ class C08(Check):
                         yield {"content": content, "chunks": [], "bs": 16 if extra and extra[0][0] == "blksize" else 512,
                                "via": "transfer", "options": opts, "kind": kind}
 
+    def extra_checks(self, tier, rng, report):
+        # the packet builders as values: a packet kept for retransmission is not changed by later packets
+        import c01_pkt
+        c01_pkt.pkt_checks(tier, rng, report, "C08")
+
     def impl(self, c):
         if c["via"] == "reader":
             return (direct_blocks(c["content"], c["chunks"], c["bs"]), False)
@@ -108,7 +139,9 @@ class C08(Check):
         kind = c.get("kind", ("noreg",))
         ksx = T.kind_sx({"kind": kind, "content": c["content"]})
         opts = [[a, b] for a, b in c.get("options", [])]
-        return sx([c["content"], c["chunks"], c["bs"], 0, opts, [65464, 30 * 1024, 4096 * 1024], ksx, [obs[0], obs[1]]])
+        bs = c.get("_announced_bs", c["bs"]) if c["via"] == "transfer" else c["bs"]
+        return sx([c["content"], c["chunks"], bs, 0, opts, [c.get("max_bs", 65464), 30 * 1024, 4096 * 1024], ksx,
+                   [obs[0], obs[1]]])
 
     def canon(self, obs):
         return [[bytes(b) for b in obs[0]], 1 if obs[1] else 0]
